@@ -365,8 +365,159 @@ def suite_odc_cartopy(ctx):
             ctx.case("odc_cartopy", (cname, x0, y0, w, h, orient), nontrivial=w == 1 or h == 1 or cname == "geos" or orient != "north-up", sample={"input": inp})
 
 
+UNIT_M = {"m": 1.0, "km": 1000.0, "us-ft": 1200.0 / 3937.0, "ft": 0.3048}      # metres per unit
+
+
+def _lonlat_of(crs, X, Y):
+    """lon/lat of projection coordinates, straight through pyproj (nothing of pyresample involved)"""
+    import pyproj
+    crs = pyproj.CRS.from_user_input(crs)
+    return pyproj.Transformer.from_crs(crs, crs.geodetic_crs, always_xy=True).transform(X, Y)
+
+
+def _centres(extent, shape):
+    """pixel-centre coordinates from extent and shape: row 0 at the upper edge extent[3], column 0 at the left edge extent[0]"""
+    h, w = shape
+    x0, y0, x1, y1 = (float(v) for v in extent)
+    xs = x0 + (np.arange(w) + 0.5) * (x1 - x0) / w
+    ys = y1 - (np.arange(h) + 0.5) * (y1 - y0) / h
+    return np.meshgrid(xs, ys)
+
+
+def suite_cf_crs_units(ctx):
+    """the unit of the CRS and the unit of the stored coordinate vectors are independent: a grid mapping whose CRS counts in
+    kilometres (or feet; to_cf keeps the unit in crs_wkt) with x/y stored in m or km, and a metre CRS with x/y in m or km, all
+    describe one grid.  Decided on the loaded area's own (CRS, extent, shape): its pixel (r, c), put through pyproj, is where
+    element (r, c) of the stored array is (the stored coordinates, converted to the unit of the exported CRS, put through pyproj)"""
+    import pyproj
+    import xarray as xr
+    from pyresample.utils import load_cf_area
+    r = ctx.rng
+    projs = [("laea", {"proj": "laea", "lat_0": 52, "lon_0": 10, "x_0": 4321000, "y_0": 3210000, "ellps": "GRS80"}, (3.0e6, 2.0e6)),
+             ("stere", {"proj": "stere", "lat_0": 90, "lat_ts": 70, "lon_0": -45, "ellps": "WGS84"}, (-1.0e6, -2.0e6)),
+             ("merc", {"proj": "merc", "lon_0": 0, "ellps": "WGS84"}, (1.0e6, 5.0e6)),
+             ("utm33", {"proj": "utm", "zone": 33, "ellps": "WGS84"}, (4.0e5, 5.5e6)),
+             ("lcc", {"proj": "lcc", "lat_1": 30, "lat_2": 60, "lat_0": 45, "lon_0": 10, "ellps": "WGS84"}, (-3.0e5, -2.0e5))]
+    for pname, proj, (ox, oy) in projs:
+        for crs_unit in (["m", "km"] + [r.choice(["us-ft", "ft"])] if ctx.quick else ["m", "km", "us-ft", "ft"]):
+            um = UNIT_M[crs_unit]
+            pd = dict(proj, units=crs_unit)
+            for _ in range(1 if ctx.quick else 6):
+                w, h = r.randrange(2, 9), r.randrange(2, 9)
+                px, py = r.choice([1024.0, 2000.0, 3000.403165817]), r.choice([512.0, 2500.0, 3000.403165817])     # metres
+                x0, y0 = ox + r.randrange(-50, 50) * px, oy + r.randrange(-50, 50) * py
+                ext = tuple(v / um for v in (x0, y0, x0 + w * px, y0 + h * py))       # in the unit of the CRS
+                area = _mk(pd, w, h, ext)
+                with warnings.catch_warnings():
+                    warnings.simplefilter("ignore")
+                    cf = area.crs.to_cf()
+                XC, YC = _centres(ext, (h, w))        # unit of the CRS
+                for coord_unit in ("m", "km"):
+                    xdesc, s2n = r.random() < 0.3, r.random() < 0.3
+                    ex, ey = XC[0, :], YC[:, 0]
+                    ex = ex[::-1] if xdesc else ex
+                    ey = ey[::-1] if s2n else ey
+                    sx, sy = ex * um / UNIT_M[coord_unit], ey * um / UNIT_M[coord_unit]
+                    ds = xr.Dataset({"field": (("y", "x"), np.arange(h * w, dtype=float).reshape(h, w), {"grid_mapping": "crs"}), "crs": ((), 0, cf)},
+                                    coords={"x": ("x", sx, {"standard_name": "projection_x_coordinate", "units": coord_unit}),
+                                            "y": ("y", sy, {"standard_name": "projection_y_coordinate", "units": coord_unit})})
+                    how, kw = r.choice([("guessed", {"variable": "field"}), ("explicit", {"variable": "field", "y": "y", "x": "x"}), ("search", {})])
+                    inp = {"projection": pname, "crs_units": crs_unit, "coordinate_units": coord_unit, "extent_in_crs_units": [float(v) for v in ext], "shape": [h, w],
+                           "x_descending": xdesc, "y_south_to_north": s2n, "how": how}
+                    ctx.count(f"cf_units.crs_{crs_unit}.coords_{coord_unit}")
+                    ctx.case("cf-crs-units", (pname, crs_unit, coord_unit, x0, y0, w, h, xdesc, s2n, how), nontrivial=crs_unit != coord_unit or xdesc or s2n, sample={"input": inp})
+                    try:
+                        with warnings.catch_warnings():
+                            warnings.simplefilter("ignore")
+                            got, _ = load_cf_area(ds, **kw)
+                    except Exception as e:  # noqa
+                        ctx.fail("utils.load_cf_area", f"raised {type(e).__name__}: {str(e)[:150]}", inp, tags={"crs_units": crs_unit, "units": coord_unit}, size=5)
+                        continue
+                    probs = []
+                    if got.shape != (h, w):
+                        probs.append(f"shape {got.shape} instead of {(h, w)}")
+                    else:
+                        with warnings.catch_warnings():
+                            warnings.simplefilter("ignore")
+                            lo_e, la_e = _lonlat_of(pd, *np.meshgrid(ex, ey))
+                            lo_g, la_g = _lonlat_of(got.crs, *_centres(got.area_extent, got.shape))
+                        fin = np.isfinite(lo_e) & np.isfinite(lo_g)
+                        dl = np.abs((lo_g[fin] - lo_e[fin] + 180) % 360 - 180)
+                        if not np.array_equal(np.isfinite(lo_e), np.isfinite(lo_g)):
+                            probs.append(f"pixel (r, c) of the loaded area is not located where element (r, c) of the stored array is ({int((~np.isfinite(lo_g)).sum())} pixels of "
+                                         f"the loaded area have no lon/lat at all, {int((~np.isfinite(lo_e)).sum())} elements of the stored array have none)")
+                        elif dl.size and (dl.max() > 1e-7 or np.abs(la_g[fin] - la_e[fin]).max() > 1e-7):
+                            probs.append(f"pixel (r, c) of the loaded area is not located where element (r, c) of the stored array is (up to "
+                                         f"{float(dl.max())} deg in longitude, {float(np.abs(la_g[fin] - la_e[fin]).max())} deg in latitude)")
+                        if not xdesc and not s2n:
+                            # the original area itself: equal extent once both are expressed in metres
+                            gm = float(pyproj.CRS.from_user_input(got.crs).axis_info[0].unit_conversion_factor)
+                            scale = max(1.0, float(np.max(np.abs(ext))) * um)
+                            if not np.allclose(np.asarray(got.area_extent, float) * gm, np.asarray(ext) * um, rtol=0, atol=1e-9 * scale):
+                                probs.append("north-to-south storage does not give back the original extent")
+                    if probs:
+                        ctx.fail("utils.load_cf_area", f"CRS in {crs_unit}, x/y stored in {coord_unit}: " + "; ".join(probs), inp,
+                                 {"extent": [float(v) for v in got.area_extent], "shape": list(got.shape), "crs": got.crs.to_proj4()},
+                                 tags={"crs_units": crs_unit, "units": coord_unit, "reversed": xdesc or s2n}, size=5)
+
+
+def suite_cartopy_geographic(ctx):
+    """geographic areas (lon/lat, rotated pole) are not confined to -180..180 x -90..90: 0..360 global grids, regions across the
+    antimeridian counted past 180, global grids with pixel CENTRES on whole degrees (extent half a pixel beyond the poles and the
+    antimeridian), rotated grids.  Whatever the extent, the cartopy CRS carries it as its bounds"""
+    r = ctx.rng
+    crss = [("epsg4326", "EPSG:4326"), ("longlat", {"proj": "longlat", "datum": "WGS84"}), ("longlat_sphere", "+proj=longlat +R=6371229"),
+            ("longlat_pm180", {"proj": "longlat", "ellps": "WGS84", "pm": 180}),
+            ("rotated_pole", {"proj": "ob_tran", "o_proj": "longlat", "o_lon_p": 0, "o_lat_p": r.choice([30.0, 37.5, 60.0]), "lon_0": r.choice([-170.0, 10.0, 180.0]), "ellps": "WGS84"})]
+    for cname, proj in crss:
+        kinds = ["global 0..360", "across the antimeridian", "cell-centred global", "inside the box", "random", "random"]
+        for kind in (kinds if not ctx.quick else r.sample(kinds[:4], 3) + ["random"]):
+            for _ in range(1 if ctx.quick else 5):
+                px = r.choice([0.25, 0.5, 1.0, 2.0, 2.5])
+                if kind == "global 0..360":
+                    ext = [0.0, -90.0, 360.0, 90.0]
+                    if r.random() < 0.5:       # cell-centred 0..360
+                        ext = [-px / 2, -90.0 - px / 2, 360.0 - px / 2, 90.0 + px / 2]
+                elif kind == "across the antimeridian":
+                    x0, y0 = r.randrange(120, 179) * 1.0, r.randrange(-80, 40) * 1.0
+                    ext = [x0, y0, x0 + r.randrange(int(181 - x0), 120) * 1.0, y0 + r.randrange(5, 50)]
+                    if r.random() < 0.3:       # the same region counted from the other side
+                        ext = [ext[0] - 360, ext[1], ext[2] - 360, ext[3]]
+                elif kind == "cell-centred global":
+                    ext = [-180.0 - px / 2, -90.0 - px / 2, 180.0 - px / 2, 90.0 + px / 2]
+                elif kind == "inside the box":
+                    x0, y0 = r.randrange(-180, 100) * 1.0, r.randrange(-90, 40) * 1.0
+                    ext = [x0, y0, x0 + r.randrange(1, 80), y0 + r.randrange(1, 50)]
+                else:
+                    x0, y0 = r.uniform(-400, 300), r.uniform(-100, 60)
+                    ext = [x0, y0, x0 + r.uniform(1, 360), y0 + r.uniform(1, 100 - y0) if y0 < 99 else y0 + 1]
+                w, h = max(1, int(round(abs(ext[2] - ext[0]) / px))), max(1, int(round(abs(ext[3] - ext[1]) / px)))
+                orient = r.choice(["north-up", "north-up", "north-up", "rows-flipped", "columns-flipped"])
+                if orient == "rows-flipped":
+                    ext[1], ext[3] = ext[3], ext[1]
+                if orient == "columns-flipped":
+                    ext[0], ext[2] = ext[2], ext[0]
+                area = _mk(proj, w, h, tuple(ext))
+                e = [float(v) for v in area.area_extent]
+                outside = min(e[0], e[2]) < -180 or max(e[0], e[2]) > 180 or min(e[1], e[3]) < -90 or max(e[1], e[3]) > 90
+                inp = {"crs": cname if cname != "rotated_pole" else str(proj), "extent": e, "shape": [h, w], "kind": kind, "orientation": orient}
+                ctx.count("cartopy.geographic." + ("extent_leaves_the_box" if outside else "extent_inside_the_box"))
+                ctx.case("cartopy-geographic", (cname, kind, tuple(e), orient), nontrivial=outside, sample={"input": inp} if outside else None)
+                try:
+                    with warnings.catch_warnings():
+                        warnings.simplefilter("ignore")
+                        cc = area.to_cartopy_crs()
+                    if tuple(float(v) for v in cc.bounds) != (e[0], e[2], e[1], e[3]):
+                        ctx.fail("AreaDefinition.to_cartopy_crs", "bounds are not (x0, x1, y0, y1) of the extent", inp, [float(v) for v in cc.bounds],
+                                 tags={"family": "geographic", "outside_box": outside}, size=5)
+                except Exception as ex_:  # noqa
+                    ctx.fail("AreaDefinition.to_cartopy_crs", f"raised {type(ex_).__name__}: {str(ex_)[:150]}", inp, tags={"family": "geographic", "cause": "raises"}, size=5)
+
+
 def run(ctx):
     suite_cf(ctx)
     suite_cf_storage(ctx)
+    suite_cf_crs_units(ctx)
     suite_rasterio(ctx)
     suite_odc_cartopy(ctx)
+    suite_cartopy_geographic(ctx)
